@@ -279,3 +279,55 @@ func VerifH_C16_distributionRing() {
 		}
 	}
 }
+
+// C16.H6: the plugin as configured: Start builds the rule list (rule limits, rule-level limit
+// distribution, default rule) and Do routes every event to the limiter of its first matching rule and
+// its own key: budgets of different rules / keys are separate and each is the configured one.
+func VerifH_C16_pluginRules() {
+	K := vf.Param("K", 5)
+	ruleLimit := int64(1 + vf.Choose("rule-limit", 2))
+	defLimit := int64(2 + vf.Choose("default-limit", 2)*3) // 2 or 5: different from the rule's limit
+	withDistr := vf.Choose("rule-distribution", 2) == 1
+	rc := RuleConfig{Limit: ruleLimit, LimitKind: limitKindCount, Conditions: map[string]string{"level": "error"}}
+	wantShare := ruleLimit
+	if withDistr {
+		// the listed value gets half of the RULE's limit (rule limit 2: share 1)
+		rc.Limit, ruleLimit = 2, 2
+		rc.LimitDistribution = LimitDistributionConfig{Field: "svc", Ratios: []ComplexRatio{{Ratio: 0.5, Values: []string{"pay"}}}}
+		wantShare = 1
+	}
+	c := &Config{ThrottleField: "pod", ThrottleField_: []string{"pod"}, DefaultLimit: defLimit, LimitKind: limitKindCount,
+		LimiterBackend: inMemoryBackend, BucketsCount: 1, BucketInterval_: time.Hour, LimiterExpiration_: time.Hour,
+		Rules: []RuleConfig{rc}}
+	params := &pipeline.ActionPluginParams{PluginDefaultParams: pipeline.PluginDefaultParams{PipelineName: "verif", PipelineSettings: &pipeline.Settings{}}}
+	limitersMu.Lock()
+	delete(limiters, "verif")
+	limitersMu.Unlock()
+	p := &Plugin{}
+	p.Start(c, params)
+	defer p.Stop()
+
+	type budget struct{ rule, key string }
+	seen := map[budget]int64{}
+	for i := 0; i < K; i++ {
+		isErr := vf.Choose("level", 2) == 1
+		pod := []string{"p1", "p2"}[vf.Choose("pod", 2)]
+		level, rule, limit := "info", "default", defLimit
+		if isErr {
+			level, rule, limit = "error", "rule0", wantShare
+		}
+		js := `{"level":"` + level + `","pod":"` + pod + `","svc":"pay"}`
+		res := p.Do(verifEvent(js, 1))
+		b := budget{rule, pod}
+		seen[b]++
+		want := seen[b] <= limit
+		if vf.Param("twin", 0) == 1 {
+			vf.Assert((res == pipeline.ActionPass) != want, "event-judged-by-its-own-rule-and-key")
+			continue
+		}
+		vf.Assert((res == pipeline.ActionPass) == want, "event-judged-by-its-own-rule-and-key")
+		if !want {
+			vf.Reach("throttled")
+		}
+	}
+}
